@@ -221,13 +221,23 @@ func (e *SpecEnv) lookupType(name string) types.Type {
 	var obj types.Object
 	if k := strings.LastIndex(name, "."); k >= 0 {
 		pk, tn := name[:k], name[k+1:]
+		best := 0
 		for _, p := range e.vc.eng.prog.AllPackages() {
-			if p.Pkg.Path() == pk || p.Pkg.Name() == pk || strings.HasSuffix(p.Pkg.Path(), "/"+pk) {
+			score := 0
+			switch {
+			case p.Pkg.Path() == pk:
+				score = 4
+			case e.pkg != nil && (p.Pkg.Name() == pk) && importsPkg(e.pkg, p.Pkg):
+				score = 3
+			case (p.Pkg.Name() == pk || strings.HasSuffix(p.Pkg.Path(), "/"+pk)) && strings.HasPrefix(p.Pkg.Path(), modulePath):
+				score = 2
+			case p.Pkg.Name() == pk || strings.HasSuffix(p.Pkg.Path(), "/"+pk):
+				score = 1
+			}
+			if score > best {
 				if o := p.Pkg.Scope().Lookup(tn); o != nil {
 					obj = o
-					if p.Pkg.Path() == pk {
-						break
-					}
+					best = score
 				}
 			}
 		}
@@ -248,6 +258,15 @@ func (e *SpecEnv) lookupType(name string) types.Type {
 		return types.NewPointer(tn.Type())
 	}
 	return tn.Type()
+}
+
+func importsPkg(a, b *types.Package) bool {
+	for _, i := range a.Imports() {
+		if i == b {
+			return true
+		}
+	}
+	return false
 }
 
 func constVal(vc *VC, c *types.Const) Val {
@@ -453,8 +472,8 @@ func (e *SpecEnv) Eval(x SExpr) Val {
 			_, v := vc.mapGet(e.cur, b, i, mt)
 			return v
 		case KStr:
-			vc.decls.Fun("str.at", []Sort{SStr, SInt}, SInt)
-			return Val{K: KInt, T: App(SInt, "str.at", b.T, e.term(i))}
+			vc.decls.Fun("gstr.at", []Sort{SStr, SInt}, SInt)
+			return Val{K: KInt, T: App(SInt, "gstr.at", b.T, e.term(i))}
 		case KSpec:
 			return Val{K: KSpec, T: Select(b.T, e.term(i))}
 		}
@@ -537,10 +556,12 @@ func (e *SpecEnv) Eval(x SExpr) Val {
 		}
 		e.fail("binary operator %s", n.Op)
 	case SQuant:
+		vc.qdepth++
+		defer func() { vc.qdepth-- }()
 		vars := map[string]Val{}
 		var binders []string
 		for _, v := range n.Vars {
-			name := vc.freshName("q." + v.Name)
+			name := vc.freshName("bv$" + v.Name)
 			if s, ok := specSort(v.Sort); ok {
 				k := KSpec
 				if s == SInt {
@@ -704,6 +725,19 @@ func (e *SpecEnv) call(n SCall) Val {
 	case "ref":
 		v := e.Eval(n.Args[0])
 		return Val{K: KInt, T: e.term(v)}
+	case "allocated":
+		v := e.Eval(n.Args[0])
+		return Val{K: KBool, T: Select(vc.heapGet(e.cur, "G.alloc", ArrSort(SInt, SBool)), e.term(v))}
+	case "typetag":
+		s, ok := n.Args[0].(SStrLit)
+		if !ok {
+			e.fail("typetag(\"type\")")
+		}
+		t := e.lookupType(s.V)
+		if t == nil {
+			e.fail("unknown type %q", s.V)
+		}
+		return Val{K: KInt, T: vc.typeTag(t)}
 	case "tagof":
 		v := e.Eval(n.Args[0])
 		return Val{K: KInt, T: v.Tag}
